@@ -46,28 +46,37 @@ class Fork:
     def __next__(self):
         if self.next is None:
             if self._state == 0 and self.head.value is None:
-                with self.instream_lock:
-                    if self.head.value is None:
-                        if self.head.exc is not None:
-                            # `instream` failed on its very first element
-                            # in another fork.
-                            raise self.head.exc
-                        # Get the very first data element out of `instream`
-                        # across all forks.
-                        # If this raises `StopIteration`, meaning `instream`
-                        # is empty, the exception will be propagated, halting
-                        # this fork. All the other forks will also get to this
-                        # point and exit the same way.
-                        try:
-                            x = next(self.instream)
-                        except StopIteration:
-                            raise
-                        except BaseException as e:
-                            self.head.exc = e
-                            raise
-                        box = TeeX(x)
-                        self.buffer.put(box)
-                        self.head.value = box
+                while self.head.value is None:
+                    # Do not block on the lock unconditionally: a peer that has
+                    # obtained the first element in the meantime may be holding the
+                    # lock while it waits for room in the buffer, which it gets
+                    # only after this fork has consumed elements.
+                    if not self.instream_lock.acquire(timeout=0.1):
+                        continue
+                    try:
+                        if self.head.value is None:
+                            if self.head.exc is not None:
+                                # `instream` failed on its very first element
+                                # in another fork.
+                                raise self.head.exc
+                            # Get the very first data element out of `instream`
+                            # across all forks.
+                            # If this raises `StopIteration`, meaning `instream`
+                            # is empty, the exception will be propagated, halting
+                            # this fork. All the other forks will also get to this
+                            # point and exit the same way.
+                            try:
+                                x = next(self.instream)
+                            except StopIteration:
+                                raise
+                            except BaseException as e:
+                                self.head.exc = e
+                                raise
+                            box = TeeX(x)
+                            self.buffer.put(box)
+                            self.head.value = box
+                    finally:
+                        self.instream_lock.release()
                 self.next = self.head.value
                 return self.__next__()
             elif self._state == 0:
